@@ -189,7 +189,7 @@ func (s *Spec) TestSource() string {
 		if hasTwin {
 			fmt.Fprintf(&b, "\t\t{Name: %q, Fn: %s, Twin: %s},\n", m.Name, fn, tw)
 		} else {
-			fmt.Fprintf(&b, "\t\t{Name: %q, Fn: %s},\n", m.Name, fn)
+			fmt.Fprintf(&b, "\t\t{Name: %q, Fn: %s, SkipCopy: %v},\n", m.Name, fn, s.SkipInvolved(m))
 		}
 	}
 	b.WriteString("\t}\n}\n\nfunc TestMain(m *testing.M) { harness.Main(m) }\n\n")
@@ -457,7 +457,7 @@ func Check(id, tier string, seed uint64, repo, vd string) (*gensim.Outcome, erro
 			continue
 		}
 		ran++
-		formats[r.Spec.Format+"/"+r.Spec.Wrap+fmt.Sprintf("/skipcopy=%v", r.Spec.SkipCopy)]++
+		formats[r.Spec.Format+"/"+r.Spec.Wrap+"/skipcopy="+r.Spec.SkipCopyMode]++
 		if r.Stats != nil {
 			if c, ok := r.Stats["counters"].(map[string]any); ok {
 				for k, v := range c {
